@@ -250,6 +250,7 @@ package stackage
 //@ ensures[C01:push.plain] pp == nil ==> (cp == 0 && !nn ==> len(hdr(r)) == len0 + n && (forall j :: 0 <= j && j < n ==> slot(r, len0 + j) == old(x[j])))
 //@ ensures[C03:push.wf] wf(r) && cfgOf(r) == old(cfgOf(r))
 //@ ensures[:push.own] arr(hdr(r)) == old(arr(hdr(r))) || fresh(arr(hdr(r)))
+//@ ensures[:push.calls] G_calls_len >= c0 && (pp == nil ==> G_calls_len == c0)
 //@ ensures[C14,C03:push.pol.outcome] pp != nil ==> (exists e :: 0 <= e && e <= n && (forall j :: 0 <= j && j < e && pcalled(cp, len0, j) ==> pres(M0, x, pp, cp, len0, c0, j) == nil) && len(hdr(r)) == alen(cp, len0, e) && (e == n ==> G_calls_len == acalls(cp, len0, c0, n) && F_nodeConfig_err[cf] == old(F_nodeConfig_err[cf])) && (e < n ==> pcalled(cp, len0, e) && pres(M0, x, pp, cp, len0, c0, e) != nil && G_calls_len == acalls(cp, len0, c0, e) + 1 && F_nodeConfig_err[cf] == pres(M0, x, pp, cp, len0, c0, e)) && (forall j :: 0 <= j && j < e && pcalled(cp, len0, j) ==> slot(r, alen(cp, len0, j)) == old(x[j])) && (forall j :: 0 <= j && j < n && (j < e || j == e) && pcalled(cp, len0, j) ==> G_calls_fn[acalls(cp, len0, c0, j)] == pp && G_calls_arg[acalls(cp, len0, c0, j)] == old(x[j])))
 //@ ensures[C14:push.pol.log.kept] pp != nil ==> (forall k :: 0 <= k && k < c0 ==> G_calls_fn[k] == old(G_calls_fn[k]) && G_calls_arg[k] == old(G_calls_arg[k]))
 //@ modifies Cell_stack[r], Mem_Val[old(arr(hdr(r)))], Mem_Val[fresh], F_nodeConfig_ldr[cfgOf(r)], G_held, F_nodeConfig_err[cfgOf(r)], G_calls_len, G_calls_fn, G_calls_arg
@@ -277,6 +278,7 @@ package stackage
 //@ ensures[C09:Push.ro] r != nil && bit(o, 0x0080) ==> hdr(r) == old(hdr(r))
 //@ ensures[C01,C03:Push.wf] r != nil ==> wf(r) && cfgOf(r) == old(cfgOf(r))
 //@ ensures[:Push.ret] result == r
+//@ ensures[:Push.calls] G_calls_len >= c0 && (pp == nil ==> G_calls_len == c0)
 //@ ensures[C14,C03:Push.pol.outcome] go && pp != nil ==> (exists e :: 0 <= e && e <= n && (forall j :: 0 <= j && j < e && pcalled(cp, len0, j) ==> pres(M0, y, pp, cp, len0, c0, j) == nil) && len(hdr(r)) == alen(cp, len0, e) && (e == n ==> G_calls_len == acalls(cp, len0, c0, n) && F_nodeConfig_err[cf] == old(F_nodeConfig_err[cf])) && (e < n ==> pcalled(cp, len0, e) && pres(M0, y, pp, cp, len0, c0, e) != nil && G_calls_len == acalls(cp, len0, c0, e) + 1 && F_nodeConfig_err[cf] == pres(M0, y, pp, cp, len0, c0, e)) && (forall j :: 0 <= j && j < e && pcalled(cp, len0, j) ==> slot(r, alen(cp, len0, j)) == old(y[j])) && (forall j :: 0 <= j && j < n && (j < e || j == e) && pcalled(cp, len0, j) ==> G_calls_fn[acalls(cp, len0, c0, j)] == pp && G_calls_arg[acalls(cp, len0, c0, j)] == old(y[j])))
 //@ ensures[C14:Push.pol.log.kept] go && pp != nil ==> (forall k :: 0 <= k && k < c0 ==> G_calls_fn[k] == old(G_calls_fn[k]) && G_calls_arg[k] == old(G_calls_arg[k]))
 //@ modifies Cell_stack[r], Mem_Val[old(arr(hdr(r)))], Mem_Val[fresh], F_nodeConfig_ldr[cfgOf(r)], G_held, F_nodeConfig_err[cfgOf(r)], G_calls_len, G_calls_fn, G_calls_arg
@@ -976,6 +978,7 @@ package stackage
 //@ ensures[C03,C14:ma.wf] wf(r) && cfgOf(r) == cf
 //@ ensures[C14:ma.log.kept] forall k :: 0 <= k && k < c0 ==> G_calls_fn[k] == old(G_calls_fn[k]) && G_calls_arg[k] == old(G_calls_arg[k])
 //@ ensures[:ma.own] arr(hdr(r)) == old(arr(hdr(r))) || fresh(arr(hdr(r)))
+//@ ensures[:ma.calls] G_calls_len >= c0
 //@ modifies Cell_stack[r], Mem_Val[old(arr(hdr(r)))], Mem_Val[fresh], F_nodeConfig_err[cfgOf(r)], G_calls_len, G_calls_fn, G_calls_arg
 //@ loop 1 invariant 0 <= i && i <= n && wf(r) && cfgOf(r) == cf && off(hdr(r)) == 0
 //@ loop 1 invariant len(hdr(r)) == alen(cp, len0, i) && len(hdr(r)) >= len0 && G_calls_len == acalls(cp, len0, c0, i) && G_calls_len >= c0
@@ -1233,9 +1236,27 @@ package stackage
 //@ ensures[C15:transfer.ok] ok ==> len(hdr(dest)) == dl + n && (forall k :: 0 <= k && k < n ==> slot(dest, dl + k) == old(slot(r, k + 1)))
 //@ ensures[C15:transfer.kept] forall k :: 0 <= k && k < dl ==> slot(dest, k) == old(slot(dest, k))
 //@ ensures[C15:transfer.full] cp != 0 && n > cp - dl ==> !ok && hdr(dest) == old(hdr(dest)) && Mem_Val[arr(hdr(dest))] == old(Mem_Val[arr(hdr(dest))])
+//@ ensures[:transfer.own] (arr(hdr(dest)) == old(arr(hdr(dest))) || fresh(arr(hdr(dest))))
 //@ ensures[C15:transfer.src] hdr(r) == old(hdr(r)) && Mem_Val[arr(hdr(r))] == old(Mem_Val[arr(hdr(r))]) && cfgOf(r) == old(cfgOf(r))
 //@ ensures[C15:transfer.wf] wf(dest) && wf(r) && cfgOf(dest) == old(cfgOf(dest))
 //@ modifies Cell_stack[dest], Mem_Val[old(arr(hdr(dest)))], Mem_Val[fresh], F_nodeConfig_ldr[cfgOf(dest)], F_nodeConfig_err[cfgOf(dest)], G_held, G_calls_len, G_calls_fn, G_calls_arg
+//@ let cd := cfgOf(dest)
+//@ let ad := arr(hdr(dest))
+//@ let ar := arr(hdr(r))
+//@ loop 1 invariant 0 <= i && i <= n
+//@ loop 1 invariant wf(dest) && cfgOf(dest) == cd
+//@ loop 1 invariant wf(r)
+//@ loop 1 invariant F_nodeConfig_ppf[cd] == nil && F_nodeConfig_cap[cd] == cp && G_calls_len >= 0
+//@ loop 1 invariant hdr(r) == old(hdr(r)) && Mem_Val[ar] == old(Mem_Val[ar]) && cfgOf(r) == old(cfgOf(r))
+//@ loop 1 invariant arr(hdr(dest)) == ad || fresh(arr(hdr(dest)))
+//@ loop 1 invariant arr(hdr(dest)) != ar && ar < old(alloc) && ad < old(alloc)
+//@ loop 1 invariant len(hdr(dest)) >= dl && len(hdr(dest)) <= dl + i
+//@ loop 1 invariant len(hdr(dest)) == dl + i ==> forall q :: dl <= q && q < dl + i ==> cell(hdr(dest), q) == old(slot(r, q - dl + 1))
+//@ loop 1 invariant forall q :: 0 <= q && q < dl ==> cell(hdr(dest), q) == old(cell(hdr(dest), q))
+//@ loop 1 invariant hdrsSameExcept(Cell_stack, old(Cell_stack), dest, old(alloc))
+//@ loop 1 invariant forall q :: 0 <= q && q < old(alloc) && q != ad ==> Mem_Val[q] == old(Mem_Val[q])
+//@ loop 1 invariant forall q :: 0 <= q && q < old(alloc) && q != cd ==> F_nodeConfig_err[q] == old(F_nodeConfig_err[q]) && F_nodeConfig_ldr[q] == old(F_nodeConfig_ldr[q])
+//@ loop 1 invariant cp != 0 ==> n <= cp - dl
 
 //@ func (Stack).Transfer
 //@ tags C15
